@@ -323,6 +323,26 @@ func main() {
 		add(new(big.Int).Add(v, one))
 	}
 	add(max256)
+	// decimally round amounts: few significant digits times a power of ten (how amounts are
+	// written by people: 10, 1200, 0.05, 2.5 units ...). Their decimal strings end in runs of
+	// zeros on either side of the dot, which random 256-bit values never do.
+	var round []*big.Int
+	rrng := r.Rand("round")
+	for k := int64(0); k <= 77; k++ {
+		p := pow10(k)
+		ms := []int64{1, 2, 3, 4, 5, 6, 7, 8, 9}
+		for j := 0; j < 4; j++ { // 2..5 significant digits, last one non-zero
+			m := int64(1+rrng.Intn(9)) + 10*int64(rrng.Intn([]int{10, 100, 1000, 10000}[j]))
+			ms = append(ms, m)
+		}
+		for _, m := range ms {
+			n := new(big.Int).Mul(big.NewInt(m), p)
+			if n.Cmp(max256) <= 0 {
+				add(n)
+				round = append(round, n)
+			}
+		}
+	}
 	rng := r.Rand("ints")
 	nRand := r.Pick(300000, 20000000)
 	for i := 0; i < nRand; i++ {
@@ -424,10 +444,22 @@ func main() {
 	ethSetup()
 	nEth := r.Pick(1500, 60000)
 	ethVals := []*big.Int{}
+	// every decimally round amount, then an even sample over ALL classes of the boundary set
+	// (not only the ones generated first), then random values
+	ethVals = append(ethVals, round...)
+	nEth += len(round)
+	var cand []*big.Int
 	for _, n := range ints[:nb] {
-		if n.Sign() >= 0 && n.BitLen() <= 256 && len(ethVals) < nEth/2 && (n.BitLen() > 14 || n.Int64()%97 == 0) {
-			ethVals = append(ethVals, n)
+		if n.Sign() >= 0 && n.BitLen() <= 256 && (n.BitLen() > 14 || n.Int64()%97 == 0) {
+			cand = append(cand, n)
 		}
+	}
+	want := nEth / 2
+	if want > len(cand) {
+		want = len(cand)
+	}
+	for i := 0; i < want; i++ {
+		ethVals = append(ethVals, cand[i*len(cand)/want])
 	}
 	for len(ethVals) < nEth {
 		ethVals = append(ethVals, new(big.Int).Abs(ints[nb+rng.Intn(nRand)]))
@@ -451,9 +483,9 @@ func main() {
 	r.Finish(mon.Coverage{
 		Evaluations:        evals,
 		DistinctNontrivial: int64(r.DistinctCount("int") + r.DistinctCount("str") + r.DistinctCount("eth")),
-		Rule: "integers: 0..10^4, 2^k(+-1) k<=256, 10^k(+-1) k<=77, digit patterns of every length 1..78, negatives, seeded log-uniform random values; " +
+		Rule: "integers: 0..10^4, 2^k(+-1) k<=256, 10^k(+-1) k<=77, digit patterns of every length 1..78, decimally round amounts m*10^k (1..5 significant digits, k<=77), negatives, seeded log-uniform random values; " +
 			"each through BigIntToStr->StrToBigInt and both rescalers (all decimals 0..18 for the boundary set); strings: seeded decimal strings with <=78 integer and <=18 fractional digits against an exact digit-string oracle; " +
-			"eth: signed EIP-155 txs through rlp -> ConvertTx -> executor BeforeExecute. Non-trivial: |n| >= 1e18 or non-zero fractional part (ints), all strings/eth values; distinct by value",
+			"eth: signed EIP-155 txs (all round amounts, an even sample of the boundary set, random values) through rlp -> ConvertTx -> executor BeforeExecute. Non-trivial: |n| >= 1e18 or non-zero fractional part (ints), all strings/eth values; distinct by value",
 		Assumptions: []string{"math/big integer arithmetic and SetString are exact (oracle)", "FormatDecimalForRocket(m,d) only judged while m*10^(18-d) < 2^256·(margin)"},
 		MustObserve: []string{"roundtrip_checks", "parse_checks", "eth_value_checks", "rescale_checks"},
 	})
